@@ -1,5 +1,6 @@
 """Python twin of the table-driven process of DESIGN Appendix A.1 (coq/theories/Model/Script.v,
 harness/src/script_proc.rs).  Issues its actions in table order; the bridge relays them grouped by kind."""
+import enum
 import json
 import struct
 
@@ -10,6 +11,12 @@ def _num(name: str) -> int:
     return int(name[1:])
 
 
+class _Mode(enum.IntEnum):
+    """an attribute whose TYPE matters (a subclass of int): a state round trip must give back a _Mode, not an int"""
+    IDLE = 0
+    RUN = 1
+
+
 class ScriptProc(Process):
     def __init__(self, spec_json: str):
         spec = json.loads(spec_json)
@@ -18,10 +25,17 @@ class ScriptProc(Process):
         self._rectime = bool(spec["flags"] & 1)
         self._stateless = bool(spec["flags"] & 2)
         self._raise_at = spec.get("raise_at", -1)
+        self._mode = _Mode.RUN
+        self._ratio = 0.5
+        self._flag = True
         # `_idx` and `_hist` are created LAZILY, by the first handler call (a common Python idiom): a state saved
         # before that call does not contain them, and restoring it must not leave a later value behind
 
     def _handle(self, key, ctx: Context):
+        # uses the enum API and the exact types of its scalar attributes: fails if a restore turned them into
+        # plain numbers (or a bool into an int)
+        if self._mode.name != "RUN" or self._flag is not True or not isinstance(self._ratio, float):
+            raise RuntimeError("attribute types changed by a state round trip")
         if getattr(self, "_idx", None) is None:
             self._idx = 0
         if getattr(self, "_hist", None) is None:
